@@ -123,6 +123,8 @@ type c04cfg struct {
 	altOff        bool
 	drainNil      bool
 	resizeInDrain bool
+	readErr       bool // the first Read of the first engagement fails
+	windowCall    bool // another goroutine of the application enables the modes while a shutdown is in progress
 }
 
 // c04exec runs one history; returns category and description of the first violation.
@@ -135,6 +137,9 @@ func c04exec(cfg c04cfg, ops []c04op, edges map[string]int) (cat, what string) {
 	term.Title = "orig-title"
 	ft := faketty.New(W, H)
 	ft.DrainReturnsNil = cfg.drainNil
+	if cfg.readErr {
+		ft.ReadErrAt = 1
+	}
 	ft.OnWrite = func(b []byte) { term.Feed(b) }
 	if cfg.resizeInDrain {
 		// the terminal reports a new size just as the screen is shutting down
@@ -314,6 +319,23 @@ func c04exec(cfg c04cfg, ops []c04op, edges map[string]int) (cat, what string) {
 			}
 		}
 	}()
+	if cfg.windowCall && hasMouse {
+		fired := false
+		ft.OnNotifyNil = func() {
+			if fired {
+				return
+			}
+			fired = true
+			// what a second application goroutine does when it gets the screen lock in the
+			// unlocked window of Suspend/Fini; it counts as the application's latest request
+			ft.BeginApp()
+			s.EnableMouse()
+			s.EnablePaste()
+			s.EnableFocus()
+			ft.EndApp()
+			mouse, paste, focus = 7, true, true
+		}
+	}
 	for _, o := range ops {
 		ok := true
 		switch o.K {
@@ -430,7 +452,7 @@ func C04(r *core.Run) {
 			for hi := 0; hi < nh; hi++ {
 				rg := r.Rand("h", se.name, altOff, hi)
 				ops := c04gen(rg)
-				cfg := c04cfg{se: se, altOff: altOff, drainNil: hi%2 == 1, resizeInDrain: hi%3 == 2}
+				cfg := c04cfg{se: se, altOff: altOff, drainNil: hi%2 == 1, resizeInDrain: hi%3 == 2, readErr: hi%5 == 4, windowCall: hi%7 == 3}
 				cat, what := c04exec(cfg, ops, led)
 				nt := false
 				for _, o := range ops {
@@ -478,7 +500,7 @@ func C04(r *core.Run) {
 					if altOff {
 						alt = "TCELL_ALTSCREEN=disable"
 					}
-					r.Violate(cat+"|"+c04family(se), fmt.Sprintf("%s (%s, drainNil=%v, resize notification during Drain=%v): %s :: history: %s", se.name, alt, cfg.drainNil, cfg.resizeInDrain, what, strings.Join(ss, " ")), map[string]any{"entry": se.name, "altscreen_disabled": altOff, "ops": ss})
+					r.Violate(cat+"|"+c04family(se), fmt.Sprintf("%s (%s, drainNil=%v, resize notification during Drain=%v, first Read fails=%v, modes enabled from another goroutine during the shutdown=%v): %s :: history: %s", se.name, alt, cfg.drainNil, cfg.resizeInDrain, cfg.readErr, cfg.windowCall, what, strings.Join(ss, " ")), map[string]any{"entry": se.name, "altscreen_disabled": altOff, "ops": ss})
 				}
 				if si == 0 && hi < 2 && !altOff {
 					var ss []string
